@@ -192,6 +192,8 @@ class Converter:
         self._locals: list[dict[str, LocalSymValue]] = [{}]
         self._analyzer: analysis.AstAnalyzer | None = None
         self._castable: set[str] = set()
+        # version of every non-standard opset domain used so far (a proto imports one version per domain)
+        self._domain_versions: dict[str, int] = {}
 
     def _is_castable(self, var_name: str) -> bool:
         """Returns True if the variable with the given name represents a polymorphic constant."""
@@ -214,6 +216,15 @@ class Converter:
 
     def _set_default_opset(self, opset: values.Opset, node: ast.AST) -> None:
         if opset.domain != "":
+            # A function imports one version per domain: a second version of the same domain
+            # would be re-interpreted under the schemas of the first one.
+            seen = self._domain_versions.setdefault(opset.domain, opset.version)
+            if seen != opset.version:
+                self._fail(
+                    node,
+                    f"Two distincts versions of opset {opset.domain!r} were used "
+                    f"({opset.version} != {seen}).",
+                )
             return
         if self.default_opset_ is not None:
             if (
@@ -253,6 +264,7 @@ class Converter:
         self._nextvar = 0
         self._used_vars = set()
         self._locals: list[dict[str, LocalSymValue]] = [{}]
+        self._domain_versions = {}
 
     def _source_of(self, node: ast.AST) -> sourceinfo.SourceInfo:
         return sourceinfo.SourceInfo(
